@@ -321,6 +321,57 @@ def check_data(case, part):
         part.violation(case, "the sampler ran although the data sources do not match the offset priors / have an unsupported form", observed=ll)
 
 
+def check_hist(case, part):
+    """call histories on ONE TheJoker with ONE data container mutated in place between calls"""
+    import astropy.units as u
+    import thejoker as tj
+
+    no = case["n_offsets"]
+    prior = _prior_no(no)
+    joker = tj.TheJoker(prior)
+    samples = tj.JokerSamples()
+    samples["P"] = [3.3, 17.0] * u.day
+    samples["e"] = [0.1, 0.3] * u.one
+    samples["omega"] = [1.0, 2.0] * u.rad
+    samples["M0"] = [0.5, 4.0] * u.rad
+    samples["s"] = [0.0, 0.0] * u.km / u.s
+    srcs = [_rv(3, k) for k in range(3)]
+    cont = [] if case["form"] == "list" else {}
+    first_ll = {}
+    for step, k in enumerate(case["ks"]):
+        # mutate the same container object in place to hold k sources
+        if case["form"] == "list":
+            while len(cont) > k:
+                cont.pop()
+            while len(cont) < k:
+                cont.append(srcs[len(cont)])
+        else:
+            while len(cont) > k:
+                cont.pop(f"k{len(cont) - 1}")
+            while len(cont) < k:
+                cont[f"k{len(cont)}"] = srcs[len(cont)]
+        accept = (k - 1 == no)
+        c2 = dict(case, step=step)
+        try:
+            ll = np.array(joker.marginal_ln_likelihood(cont, samples, in_memory=True))
+            raised = None
+        except Exception as e:
+            ll, raised = None, e
+        part.transitions += 1
+        if accept and raised is not None:
+            part.violation(c2, f"matching data/prior refused after history {case['ks'][:step]}: {type(raised).__name__}: {raised}")
+            return
+        if not accept and raised is None:
+            part.violation(c2, f"the sampler ran on {k} sources with {no} offset priors after history {case['ks'][:step]} on the same TheJoker / container")
+            return
+        if accept:
+            if k in first_ll and not np.array_equal(first_ll[k], ll):
+                part.violation(c2, "same data gives different likelihoods later in the history", expected=first_ll[k], observed=ll)
+                return
+            first_ll.setdefault(k, ll)
+    part.record(case, outcome=(tuple(case["ks"]), no), nontrivial=len(set(case["ks"])) > 1)
+
+
 def check_init(case, part):
     import thejoker as tj
 
@@ -343,7 +394,7 @@ def check_init(case, part):
 
 
 def run_case(case, part):
-    {"prior": check_prior, "default": check_default, "data": check_data, "init": check_init}[case["kind"]](case, part)
+    {"prior": check_prior, "default": check_default, "data": check_data, "init": check_init, "hist": check_hist}[case["kind"]](case, part)
 
 
 def shard(cases):
@@ -413,6 +464,11 @@ def build_cases(quick):
         for ns in (2, 3):
             for form in ("list_nonrv", "dict_nonrv", "list_cov"):
                 cases.append(dict(kind="data", n_offsets=no, form=form, n_sources=ns))
+    for no in (0, 1, 2):
+        for form in ("list", "dict"):
+            for n in (2, 3):
+                for ks in itertools.product((1, 2, 3), repeat=n):
+                    cases.append(dict(kind="hist", n_offsets=no, form=form, ks=list(ks)))
     for a in ("prior", "prior_none", "rng_int", "rng_randomstate", "pool_obj", "pool_nomap", "ok"):
         cases.append(dict(kind="init", arg=a))
     return cases
@@ -425,7 +481,8 @@ def main():
         "non-convertible unit} of every parameter; every non-Normal prior (12 kinds) on every linear parameter and offset; valid "
         "variations (equivalent units, Normal with non-zero mean); mutilation+valid-variation pairs (thorough: also pairs of "
         "mutilations); JokerPrior.default argument mutilations; data forms x n_sources 1..3 x n_offsets 0..2 through "
-        "TheJoker.marginal_ln_likelihood; TheJoker.__init__ arguments. Non-trivial: the case must be refused.",
+        "TheJoker.marginal_ln_likelihood; every call history of length 2..3 over source counts {1,2,3} on ONE TheJoker with ONE container "
+        "mutated in place (list / dict) x n_offsets; TheJoker.__init__ arguments. Non-trivial: the case must be refused.",
     )
     cases = build_cases(chk.quick)
     chk.bounds = {"cases": len(cases)}
